@@ -496,6 +496,33 @@ def c07_scope(res, pid, rng, tier):
             if s_ in out or any(s_ in m for _, m in lg):
                 fails.append({"kind": "a secret survives in the output or in an INFO+ log record (two secrets of one line form on one line)",
                               "salt": cfg.salt, "line": ln, "output": out, "secret": s_})
+    # a keyword directly behind a letter that is not an ASCII letter (no blank between them): the secret behind the keyword does not survive
+    for ln_, sec_ in (("描述password 0 Alpha!Secret9\n", "Alpha!Secret9"), ("clésecret 0 Xk29fjq1\n", "Xk29fjq1"),
+                      ("сетьsnmp-server community Mn77qqrt ro\n", "Mn77qqrt")):
+        try:
+            on_, lg_ = run_lines(fa.FaCfg(salt="na", pwd=True), [ln_])
+        except Exception as e:  # noqa
+            fails.append({"kind": "anonymize_io raised on a recognised line form", "exc": repr(e), "salt": "na", "line": ln_})
+            continue
+        res.evaluations += 1
+        if sec_ in on_[0]:
+            fails.append({"kind": "a secret survives in the output or in an INFO+ log record (keyword directly behind a non-ASCII letter or digit)", "salt": "na", "line": ln_,
+                          "output": on_[0], "secret": sec_})
+    # text secrets that Python's int(…, 16) would read as numbers (underscores, 0x, sign) are text secrets like any other: same output
+    # as the same line with another text secret
+    for a_, b_ in (("dead_beef", "qwer_tyui"), ("0xdeadbeef", "0xqwertyui"), ("+c0ffee11", "+k0ffee11"), ("-1234abcd", "-zzzzabcd"),
+                   ("١٢٣٤٥٦٧٨", "klmnopqr")):
+        for f_ in ("username x password 0 {}\n", "snmp-server community {} ro\n"):
+            try:
+                oa_, _ = run_lines(fa.FaCfg(salt="hx", pwd=True), [f_.format(a_)])
+                ob_, _ = run_lines(fa.FaCfg(salt="hx", pwd=True), [f_.format(b_)])
+            except Exception as e:  # noqa
+                fails.append({"kind": "anonymize_io raised on a recognised line form", "exc": repr(e), "salt": "hx", "line": f_.format(a_)})
+                continue
+            res.evaluations += 2
+            if oa_ != ob_:
+                fails.append({"kind": "the output depends on the secret: two text secrets in the same line form give different output", "salt": "hx",
+                              "line": f_.format(a_), "output": oa_[0], "paired_line": f_.format(b_), "paired_output": ob_[0]})
     # the output is a function of the run, not of what this process did before: a second anonymizer with the same salt and options
     # meets, as its first line, a line that the first anonymizer met later in its input; paired with the same run over a line whose
     # secret differs (same form, same length) - the two outputs must be the same text
@@ -676,6 +703,18 @@ def c08_scope(res, pid, rng, tier):
                               "replacement_of_the_clear_form": r6_, "clear_text_of_the_$9$_replacements": d6_})
         except Exception as e:  # noqa
             fails.append({"kind": "anonymize_io raised", "exc": repr(e), "salt": cfg.salt, "lines": l6_})
+        # two clear-text secrets that differ in one trailing (or leading) punctuation character are two secrets
+        for ch_ in "!#%*?~@+=^&_-/|.:":
+            for a_, b_ in (("Winter2024" + ch_, "Winter2024"), (ch_ + "Winter2024", "Winter2024")):
+                lp_ = ["username a password 0 %s\n" % a_, "username b password 0 %s\n" % b_]
+                try:
+                    op_, _ = run_lines(cfg, lp_)
+                except Exception as e:  # noqa
+                    fails.append({"kind": "anonymize_io raised", "exc": repr(e), "salt": cfg.salt, "lines": lp_})
+                    continue
+                res.evaluations += 2
+                if op_[0].split()[-1] == op_[1].split()[-1]:
+                    fails.append({"kind": "different secrets received the same replacement", "salt": cfg.salt, "lines": lp_, "outputs": op_})
         for e1, e2 in pairs9:
             l9 = ['secret "%s"\n' % e1, 'secret "%s"\n' % e2, 'secret "%s"\n' % e1]
             try:
@@ -1017,6 +1056,20 @@ def c09_scope(res, pid, rng, tier):
         if outs_c and (len(outs_c) != len(copies) or any(frame(a) != frame(b) for a, b in zip(copies, outs_c))):
             fails.append({"kind": "white space before / after the line or its terminator not kept in place when the same secret line occurs again",
                           "salt": cfg.salt, "lines": copies, "outputs": outs_c})
+    # white space other than blank and tab at the edges of a line with a secret stays where it is
+    for ws_ in ("\x0c", "\x0b", "\x1c", "\x1f", "\u00a0", "\u2028", "\u3000", "\x85"):
+        for f_ in (" password 7 08224F4008170A1E02", "username bob password 0 EdgeSecret77", "snmp-server community EdgeComm88 ro"):
+            for ln_ in (f_ + ws_ + "\n", ws_ + f_ + "\n", ws_ + " " + f_ + " " + ws_ + "\n"):
+                try:
+                    ow_, _ = run_lines(fa.FaCfg(salt="edge", pwd=True), [ln_])
+                except Exception as e:  # noqa
+                    fails.append({"kind": "anonymize_io raised", "exc": repr(e), "salt": "edge", "line": ln_})
+                    continue
+                res.evaluations += 1
+                lead_ = lambda x: x[:len(x) - len(x.lstrip())]      # noqa: E731
+                trail_ = lambda x: x[len(x.rstrip()):]              # noqa: E731
+                if lead_(ow_[0]) != lead_(ln_) or trail_(ow_[0]) != trail_(ln_):
+                    fails.append({"kind": "white space before / after the line or its terminator not kept in place", "salt": "edge", "line": ln_, "output": ow_[0]})
     # the `$9$` replacement under every salt whose first character is a character of the `$9$` alphabet (it becomes the salt character
     # of the replacement): an independent decoder reads it, and reads the same clear text under every salt
     from .jun_checks import ref_decrypt as _rd9, ref_encrypt as _re9
